@@ -37,8 +37,9 @@ def shapes(tier):
         ad = (0, 1, 8, 17)
         ml = (0, 1, 7, 8, 9, 16, 17, 33)
     else:
-        ad = (0, 1, 7, 8, 9, 15, 16, 17, 24, 33)
-        ml = (0, 1, 2, 7, 8, 9, 15, 16, 17, 23, 24, 25, 31, 32, 33, 40, 49)
+        ad = tuple(range(0, 19)) + (24, 31, 32, 33, 64, 129)
+        ml = tuple(range(0, 35)) + (40, 49, 63, 64, 65, 127, 128, 129, 255, 1000)
+        return [(a, m) for a in ad for m in ml] + [(0, 4099), (5, 4099), (4099, 0), (4099, 17), (1000, 1000)]
     return [(a, m) for a in ad for m in ml]
 
 
@@ -60,6 +61,8 @@ def run(rep, tier):
                 sh = shapes(tier)
                 if fam == "masked" and tier == "quick":
                     sh = [(0, 0), (1, 9), (8, 16), (17, 33)]
+                if fam == "masked" and tier != "quick":
+                    sh = [(a, m) for (a, m) in sh if a in (0, 1, 8, 9, 17, 33) and (m <= 34 or m in (129, 1000))]
                 if fam == "masked-rerandomized":
                     sh = [(0, 0), (1, 9)] if tier == "quick" else [(0, 0), (1, 9), (8, 16), (17, 33)]
                 if fam == "multipacket":
@@ -70,7 +73,7 @@ def run(rep, tier):
                     items.append((js, cname, layout, maxs, alg, fam, sh[k:k + 8], tier))
     for d in modes.parallel(items, _worker):
         rep.merge(d)
-    rep.floor_discharged("C01.M", (60 if tier == "quick" else 400) * len(prep))
+    rep.floor_discharged("C01.M", (60 if tier == "quick" else 2000) * len(prep))
     # D2 (structural, all lengths): the lengths that drive the block loops keep their full width
     from . import widths
     rep.rule("C01.D2", "length arithmetic in the library keeps the full width of size_t (no zero-extended 32-bit mask)")
